@@ -156,6 +156,19 @@ Theorem C11_blackbox_dump_decodes : forall S maxline n R calls, size_ok S -> For
 Proof. exact bb_dump_decodes. Qed.
 Print Assumptions C11_blackbox_dump_decodes.
 
+(* "a dump taken at any moment": whatever is logged before (pre) and whatever happens afterwards (post, any mix of log
+   calls and dumps), the dump taken in between holds the records of an unbroken run of the latest calls of pre, ending
+   with the very last one *)
+Theorem C11_blackbox_dump_at_any_moment : forall S maxline n R pre post, size_ok S -> Forall (call_ok S maxline n) pre ->
+  Forall (fun c => bb_reserve maxline (r_fn (lc_hdr c)) <= R) pre ->
+  exists kept,
+    suffix kept pre /\ (pre <> [] -> kept <> []) /\
+    (forall l, suffix l pre -> Z.of_nat (length l) * (R + 16) <= S -> suffix l kept) /\
+    nth (length pre) (snd (bb_run (bb_open S) (map (lc_op maxline) pre ++ BDump n :: post))) BoClosed =
+    BoDump (map (fun c => bb_encode (lc_rec maxline c)) kept).
+Proof. exact bb_dump_at_any_moment. Qed.
+Print Assumptions C11_blackbox_dump_at_any_moment.
+
 (* The dump file word by word: qb_rb_create_from_file applied to the words qb_rb_write_to_file produced (header
    hash and version checked, the data words loaded into a fresh NO_SEMAPHORE ring of the same word_size) yields a
    ring that represents the same queue - for every ring state whose data area holds bytes (Good: preserved by every
